@@ -31,3 +31,19 @@ func Verif19Decode(o Obfuscator, data []byte) (sid uint32, seq uint64, closing u
 	}
 	return f.StreamID, f.Seq, f.Closing, append([]byte(nil), f.Payload...), nil
 }
+
+// VerifGateValve wraps a real Valve; its Nullify reads the counters (the inner Nullify) and then calls `after` before
+// returning: the harness uses it to let another bookkeeping operation run between the moment a collection has taken
+// the counters and the moment it adds them to the pending usage.
+type VerifGateValve struct {
+	Valve
+	After func()
+}
+
+func (g *VerifGateValve) Nullify() (int64, int64) {
+	a, b := g.Valve.Nullify()
+	if g.After != nil {
+		g.After()
+	}
+	return a, b
+}
